@@ -219,7 +219,7 @@ func init() {
 					fail(err)
 				}
 				if out.Leak > 0 || len(out.Leftover) > 0 {
-					fail(fmt.Errorf("goroutine leak after cleanup: leak=%d leftover=%v", out.Leak, out.Leftover))
+					fail(fmt.Errorf("goroutine leak after cleanup: leak=%d leftover=%v\n%s", out.Leak, out.Leftover, out.LeakStacks))
 				}
 			}
 			if c.Replay != "" {
